@@ -5,9 +5,9 @@ from vcheck import write_json, InfraError
 META = {
     "property_id": "C09",
     "level": "model_checking",
-    "technique": "TLA+ ground-truth spec of range proofs (RangeProof.tla over Proof.tla / MPT.tla: RangeOK, More, needed edge-proof nodes) checked by TLC; the TLC verdict table (all contiguous runs, all single tamperings, proof-node subsets) replayed on trie.VerifyRangeProof with genuine nodes; recorded 32-byte-key calls validated against RangeProofTrace.tla",
-    "text": "TLC enumerates every key-value set over small key universes, every start key, every contiguous run and every single tampering of one (drop, alter, empty value, inject, swap) and establishes the characterisation RangeOK <=> honest run, the more-flag, and that honest edge proofs suffice while withholding any needed node does not. Every row is executed on the real verifier: complete proof database, no proof, exactly the needed nodes, the real Prove output and each node withheld; expected (accepted, more) from the table, panics are violations. Random dense/sparse tries over 32-byte keys with random runs, start keys and tamperings are recorded with rank-compressed keys and every call is validated by TLC against RangeOK / More.",
-    "note": "Trusts TLC, triekit's key/value embedding, and opaque injective hashes in the model (forged nodes that are not genuine trie nodes are outside the statement). Fixed-length keys. For the empty trie there is no root node: a call with a non-nil proof is rejected by the implementation and the model alike; completeness is stated for non-empty tries (the empty trie verifies with proof = nil). The algorithm itself (proofToPath / unsetInternal / rebuild) is bound through its verdicts, not modelled step by step.",
+    "technique": "TLA+ ground-truth spec of range proofs (RangeProof.tla over Proof.tla / MPT.tla: RangeOK, More, needed edge-proof nodes) and a step-by-step TLA+ model of the verification algorithm of trie/proof.go (RangeProofAlg.tla: proofToPath, unsetInternal/unset, re-insertion, cached hashes, hasRightElement) proved equivalent by TLC; the TLC verdict table (all contiguous runs, all single tamperings, proof-node subsets) replayed on trie.VerifyRangeProof with genuine nodes; recorded 32-byte-key calls validated against RangeProofTrace.tla",
+    "text": "TLC enumerates every key-value set over small key universes, every start key, every contiguous run and every single tampering of one (drop, alter, empty value, inject, swap) and establishes the characterisation RangeOK <=> honest run, the more-flag, that honest edge proofs suffice while withholding any needed node does not, and (AlgInv) that the modelled algorithm accepts exactly the true ranges with the right more-flag and reaches no panic for the complete proof database, exactly the needed nodes and every database with one node withheld. Every row is executed on the real verifier: complete proof database, no proof, exactly the needed nodes, the real Prove output and each node withheld; expected (accepted, more) from the table, panics are violations. Random dense/sparse tries over 32-byte keys with random runs, start keys and tamperings are recorded with rank-compressed keys and every call is validated by TLC against RangeOK / More.",
+    "note": "Trusts TLC, triekit's key/value embedding, and opaque injective hashes in the model (forged nodes that are not genuine trie nodes are outside the statement). Fixed-length keys. For the empty trie there is no root node: a call with a non-nil proof is rejected by the implementation and the model alike; completeness is stated for non-empty tries (the empty trie verifies with proof = nil). The algorithm model is bound to the code through its verdicts (same table), not by stepping the Go code.",
     "design_ref": "3.2 C09",
 }
 
